@@ -69,10 +69,14 @@ def compare(sc, k_edit=3.0, cse=True, seed=0, container="set"):
     for key, label, reading in cases:
         z = ekf.make_reading(key, **{k: float(v) for k, v in reading.items()})
         rn_py = [str(a) for a in type(z)._arglist]
+        z_before = z.data.copy()
         try:
             res = ekf.sensor_model(state, cov, sensor_key=key, sensor_reading=z)
         except Exception as e:
             return [f"python sensor_model raised {type(e).__name__}: {e}"], {}
+        if not np.array_equal(z.data, z_before):
+            # the generated C++ takes the reading by const reference: a caller that reuses the reading object sees different values
+            return [f"python sensor_model modified the reading it was given (sensor {key}: {z_before.ravel().tolist()} became {z.data.ravel().tolist()}); the generated C++ update cannot (const reference)"], {}
         tag = f"{key}.{label}"
         py_out[("same", tag)] = 1.0 if (res[0] is state and res[1] is cov) else 0.0
         for i, a in enumerate(sn_py):
